@@ -38,7 +38,7 @@ CHECKS = {
     "C10": c("layout", "TLC evaluates layout predicates over the AST of every exported definition against the pinned StdLayout.tla + exact-size acceptance on the real decoder",
              "WellFormed, FieldsDefined, CountersPrecede, BitsMatchStd (box of count vectors), SiblingsAgree and DispatchTotal are TLC invariants with one state per identity; for every identity a message of exactly the pinned length is accepted by the real code and one byte less is rejected.", "3.6, 4/C10",
              "Trusted: TLC 1.8, StdLayout.tla (lengths written from RTCM 10403.3 / IGS SSR v1.00; 1022, 1024 and 1300-1305 are marked prov=tree = regression oracle only), the syntactic exporter. A same-width transposition inside a type without siblings is invisible to this property as worded."),
-    "C11": c("socket", "TLA+ spec of the socket buffer (SockBuf.tla): TLC over all sources x all partitions x bufsizes x call sequences x failures + TLC-judged traces of the real SocketWrapper",
+    "C11": c("socket", "TLA+ spec of the socket buffer (SockBuf.tla): TLC over all sources x all partitions x bufsizes x call sequences x failures + TLC-judged traces of the real SocketWrapper + composition reader-over-wrapper (SockFramer.tla) model-checked and its TLC-simulated behaviours replayed on the real code",
              "PrefixOK/SizeOK/TimeoutKeepsData are checked exhaustively for small sources; recorded executions over a scripted socket.socket subclass are validated event by event (every recv, return value and public buffer), segmentation independence and socket-vs-file equality are compared on the real code.", "3.2, 4/C11",
              "Trusted: TLC 1.8, SockBuf.tla, the scripted socket double. recv() is assumed to return at most bufsize bytes. Two-level binding: a trace that does not fit the specification's receive pattern is judged by the envelope action of SockTrace.tla (DESIGN 9.8)."),
     "C12": c("socket", "TLC equivalence of the code-shaped chunk decoder and the RFC 9112 grammar decoder over all partitions (MC_Sock chunked) + envelope trace validation of the real wrapper for every cut position",
@@ -70,7 +70,7 @@ ENGINES = [
          kind_free_text="pinned CRC-24Q in TLA+ (bit-serial + table form), TLC-checked algebra, TLC as judge of the real checksum helpers"),
     dict(name="layout", path="spec/Layout.tla spec/StdLayout.tla harness/props/c10.py",
          kind_free_text="TLC evaluates layout predicates over the exported definition ASTs against pinned standard length formulas and sibling relations"),
-    dict(name="socket", path="spec/SockBuf.tla spec/Dechunk.tla spec/MC_Sock.tla spec/SockTrace.tla harness/sock_engine.py harness/sock_rec.py harness/sockdouble.py",
+    dict(name="socket", path="spec/SockBuf.tla spec/Dechunk.tla spec/MC_Sock.tla spec/SockTrace.tla spec/SockFramer.tla harness/sockframer.py harness/sock_engine.py harness/sock_rec.py harness/sockdouble.py",
          kind_free_text="TLA+ spec of the socket buffer and chunk decoder; TLC over all segmentations; TLC trace validation of the real SocketWrapper over a scripted socket"),
     dict(name="parallel", path="spec/Parallel.tla harness/parallel_run.py harness/props/c13.py",
          kind_free_text="two Decode instances with work lists and shared tables; TLC over all interleavings; TLC-generated schedules for a deterministic thread scheduler on the real code"),
